@@ -18,3 +18,33 @@ void* gmtime_r(const int64_t* t, struct vtm* r){ fill(*t, r); r->gmtoff = 0; r->
 int64_t timegm(struct vtm* r){ int64_t t = unfill(r); fill(t, r); return t; }
 void* localtime_r(const int64_t* t, struct vtm* r){ fill(*t + vll_tz_offset, r); r->gmtoff = vll_tz_offset; r->zone = "LCL"; return r; }
 int64_t mktime(struct vtm* r){ int64_t t = unfill(r) - vll_tz_offset; fill(t + vll_tz_offset, r); return t; }
+
+/* strftime for the conversions quill's StringFromTime caches or passes through: %H %M %S %I %k %l %p %s %% and literal
+ * text (every other conversion is outside the model: reported).  Returns 0 when the buffer is too small, like libc. */
+static int put2(char* o, uint64_t max, uint64_t* n, int v, char pad){ if (*n + 2 >= max) return 0; o[(*n)++] = v < 10 ? pad : (char)('0' + v / 10); o[(*n)++] = (char)('0' + v % 10); return 1; }
+uint64_t strftime(char* out, uint64_t max, const char* fmt, const struct vtm* tm){
+  uint64_t n = 0;
+  for (uint64_t i = 0; fmt[i]; i++) {
+    if (fmt[i] != '%') { if (n + 1 >= max) return 0; out[n++] = fmt[i]; continue; }
+    char c = fmt[++i];
+    int h12 = tm->hour % 12 == 0 ? 12 : tm->hour % 12;
+    if (c == 'H') { if (!put2(out, max, &n, tm->hour, '0')) return 0; }
+    else if (c == 'M') { if (!put2(out, max, &n, tm->min, '0')) return 0; }
+    else if (c == 'S') { if (!put2(out, max, &n, tm->sec, '0')) return 0; }
+    else if (c == 'I') { if (!put2(out, max, &n, h12, '0')) return 0; }
+    else if (c == 'k') { if (!put2(out, max, &n, tm->hour, ' ')) return 0; }
+    else if (c == 'l') { if (!put2(out, max, &n, h12, ' ')) return 0; }
+    else if (c == 'p') { if (n + 2 >= max) return 0; out[n++] = tm->hour < 12 ? 'A' : 'P'; out[n++] = 'M'; }
+    else if (c == '%') { if (n + 1 >= max) return 0; out[n++] = '%'; }
+    else if (c == 's') {
+      int64_t t = unfill((struct vtm*)tm) - tm->gmtoff; char d[20]; int k = 0;
+      if (t == 0) d[k++] = '0';
+      while (t > 0 && k < 20) { d[k++] = (char)('0' + t % 10); t /= 10; }
+      if (n + (uint64_t)k >= max) return 0;
+      while (k > 0) out[n++] = d[--k];
+    }
+    else { vassert_at(0, 9300); return 0; }      /* conversion outside the model */
+  }
+  out[n] = 0;
+  return n;
+}
